@@ -52,6 +52,8 @@ def run(P, R, tier):
     perform = P.func(PQ, '_perform_read_parquet_dask')
     pb = P.func('spatialpandas.dask', 'DaskGeoSeries.partition_bounds')
 
+    _common0 = __import__('rules.common', fromlist=['x'])
+    _common0.shared_mutable_defaults(P, R, 'C12.b', [w1, w2] + list(w2.nested.values()), 'the bounds of every geometry column are appended to one list, so each column records the interleaved bounds of all columns (and twice as many rows as partitions)')
     # ---------------------------------------------------------------- C12.a keys
     def keyset(f):
         b = {c for c in _consts(f.node, bytes)}
